@@ -207,7 +207,11 @@ func (r *Reader) parseWorksheets() error {
 
 	for i, sheetRef := range r.workbook.Sheets.Sheet {
 		// Find the sheet file path from relationships
-		target := r.sheetRels[sheetRef.RID]
+		rid := sheetRef.RID
+		if rid == "" {
+			rid = sheetRef.RIDStrict
+		}
+		target := r.sheetRels[rid]
 		if target == "" {
 			// Try default naming
 			target = fmt.Sprintf("worksheets/sheet%d.xml", i+1)
